@@ -270,7 +270,7 @@ func runSign() {
 
 	// ---- pattern hunt: honest signatures whose R or S bytes are extreme (thin slices a verifier-side strictness bug would hit) ---
 	if (prop == "C03" || prop == "") && *fCfg == "default" {
-		tries := 1500000
+		tries := 3000000
 		if thorough {
 			tries = 12000000
 		}
@@ -330,9 +330,14 @@ func runSign() {
 			found = append(found, h)
 		}
 		sort.Slice(found, func(a, b int) bool { return bytes.Compare(found[a].msg, found[b].msg) < 0 })
+		// keep every hit of the rarest classes, a bounded number of the others
 		perWhy := map[string]int{}
 		for _, h := range found {
-			if perWhy[h.why] >= 16 {
+			limit := 12
+			if strings.HasPrefix(h.why, "R: top 15") || strings.HasPrefix(h.why, "S: just below") {
+				limit = 120
+			}
+			if perWhy[h.why] >= limit {
 				continue
 			}
 			perWhy[h.why]++
